@@ -580,7 +580,7 @@ class rhf(wave_function):
         return ene2 + ene1 + ene0
 
     def _calc_rdm1(self, wave_data: dict) -> jax.Array:
-        rdm1 = jnp.array([wave_data["mo_coeff"] @ wave_data["mo_coeff"].T] * 2)
+        rdm1 = jnp.array([wave_data["mo_coeff"] @ wave_data["mo_coeff"].T.conj()] * 2)
         return rdm1
 
     @partial(jit, static_argnums=0)
@@ -1052,7 +1052,7 @@ class ghf(wave_function):
     def _calc_rdm1(self, wave_data: dict) -> jax.Array:
         dm = (
             wave_data["mo_coeff"][:, : self.nelec[0] + self.nelec[1]]
-            @ wave_data["mo_coeff"][:, : self.nelec[0] + self.nelec[1]].T
+            @ wave_data["mo_coeff"][:, : self.nelec[0] + self.nelec[1]].T.conj()
         )
         dm_up = dm[: self.norb, : self.norb]
         dm_dn = dm[self.norb :, self.norb :]
